@@ -320,6 +320,41 @@ pub fn swap_history(out: &mut crate::Out, tag: &str, seed: u64, net: NetID, bloc
         d.seal_next(Some(true));
     }
     if big {
+        // a pool of MEL and a faucet-made token (the peg does not touch it): two swaps of 2^120 tokens push the token reserve above
+        // 2^120; then two MEL swaps in one block pull more than 2^120 tokens out, so that one share exceeds the largest coin value
+        let tok = Denom::Custom(TxHash(tmelcrypt::hash_single(b"verif-huge-token")));
+        let k = PoolKey::new(Denom::Mel, tok);
+        let a = d.wal.address(CovKind::New(2));
+        let f = d.faucet(vec![mk_coin(a, 1u128 << 120, tok, &[]), mk_coin(a, 1u128 << 120, tok, &[]), mk_coin(a, 5000, tok, &[]),
+                              mk_coin(a, 40_000_000, Denom::Mel, &[]), mk_coin(a, 41_000_000, Denom::Mel, &[]), mk_coin(a, 42_000_000, Denom::Mel, &[]),
+                              mk_coin(a, 1_000_000_000 + 43_000_000, Denom::Mel, &[]), mk_coin(a, 3_000_000_000 + 44_000_000, Denom::Mel, &[])], 0, 78);
+        if d.apply(&[f.clone()], 0, json!({"why": "holders of a huge token"})) {
+            let h = d.view().height;
+            let coin = |j: usize| (CoinID::new(f.hash_nosigs(), j as u8), CoinDataHeight { coin_data: f.outputs[j].clone(), height: h });
+            let to = d.wal.address(CovKind::New(1));
+            let (kl, kr) = (k.left(), k.right());
+            let amt = |den: Denom, v: u128| mk_coin(to, v, den, &[]);
+            if let Some(t) = d.build(TxKind::LiqDeposit, &[coin(3), coin(2)], vec![amt(kl, 1000), amt(kr, 1000)], 1, k.to_bytes().to_vec(), 0) {
+                d.apply(&[t], 0, json!({"why": "pool of MEL and the huge token, 1000 : 1000"}));
+            }
+            d.seal_next(Some(true));
+            let mut batch = vec![];
+            for (tc, fc) in [(0usize, 4usize), (1, 5)] {
+                if let Some(t) = d.build(TxKind::Swap, &[coin(tc), coin(fc)], vec![amt(tok, 1u128 << 120)], 1, k.to_bytes().to_vec(), 0) {
+                    batch.push(t);
+                }
+            }
+            d.apply(&batch, 0, json!({"why": "two swaps of 2^120 tokens each into the pool"}));
+            d.seal_next(Some(true));
+            let mut batch = vec![];
+            for (mc, v) in [(6usize, 1_000_000_000u128), (7, 3_000_000_000)] {
+                if let Some(t) = d.build(TxKind::Swap, &[coin(mc)], vec![amt(Denom::Mel, v)], 1, k.to_bytes().to_vec(), 0) {
+                    batch.push(t);
+                }
+            }
+            d.apply(&batch, 0, json!({"why": "two MEL swaps that pull more than 2^120 tokens out of the pool in one block"}));
+            d.seal_next(Some(true));
+        }
         // same-side requests that add up to more than 2^120 (each at most 2^120)
         let a = d.wal.address(CovKind::New(0));
         let f = d.faucet(vec![mk_coin(a, 1u128 << 120, Denom::Mel, &[]), mk_coin(a, (1u128 << 119) + 40_000_000, Denom::Mel, &[]), mk_coin(a, 1u128 << 120, Denom::Sym, &[]),
